@@ -258,23 +258,28 @@ def _cnot_on_two_bosonic_qubits(modes):
     return instructions
 
 
-def _get_condition_function(qubit_index, measurement_value):
+def _get_condition_function(outcome_position, measurement_value):
     """Returns a condition for conditional operations based on measurement outcomes.
 
-    This function converts the qubit index to the corresponding dual-rail mode
-    indices and checks the measurement outcomes of those modes to determine the
-    qubit measurement outcome.
+    The outcomes of all measurements are concatenated in the order the measurements
+    are executed, so this function takes the position of the measurement which wrote
+    the classical bit, and checks the outcomes of the corresponding two dual-rail
+    modes to determine the qubit measurement outcome.
     """
 
     def condition(outcomes):
-        two_mode_outcomes = [(outcomes[qubit_index * 2], outcomes[qubit_index * 2 + 1])]
+        two_mode_outcomes = [
+            (outcomes[outcome_position * 2], outcomes[outcome_position * 2 + 1])
+        ]
         qubit_outcome = get_bosonic_qubit_samples(two_mode_outcomes)[0][0]
         return qubit_outcome == measurement_value
 
     return condition
 
 
-def _map_qiskit_instr_to_pq(qiskit_instruction, modes, aux_modes):
+def _map_qiskit_instr_to_pq(
+    qiskit_instruction, modes, aux_modes, clbit_positions=None
+):
     instruction_name = qiskit_instruction.name
     instructions = []
     if instruction_name == "h":
@@ -319,7 +324,13 @@ def _map_qiskit_instr_to_pq(qiskit_instruction, modes, aux_modes):
 
         cond = qiskit_instruction.operation.condition
 
-        condition = _get_condition_function(cond[0]._index, cond[1])
+        if clbit_positions is None or cond[0] not in clbit_positions:
+            raise ValueError(
+                f"The classical bit '{cond[0]}' in the condition of an 'if_else' "
+                "instruction is not written by any preceding measurement."
+            )
+
+        condition = _get_condition_function(clbit_positions[cond[0]], cond[1])
         for inner_instr_qiskit in true_branch_instructions:
             instr_list = _map_qiskit_instr_to_pq(inner_instr_qiskit, modes, aux_modes)
             for instr in instr_list:
@@ -354,6 +365,8 @@ def _encode_dual_rail_from_qiskit(qc):
     instructions.extend(preparations)
 
     cz_idx = 0
+    clbit_positions = {}
+    number_of_measurements = 0
     for instr_qiskit in qc.data:
         qubit_indices = [qc.find_bit(q).index for q in instr_qiskit.qubits]
 
@@ -373,7 +386,13 @@ def _encode_dual_rail_from_qiskit(qc):
             qubit = qubit_indices[0]
             modes = [2 * qubit, 2 * qubit + 1]
             aux_modes = []
-        mapped_instructions = _map_qiskit_instr_to_pq(instr_qiskit, modes, aux_modes)
+        if instr_qiskit.name == "measure":
+            clbit_positions[instr_qiskit.clbits[0]] = number_of_measurements
+            number_of_measurements += 1
+
+        mapped_instructions = _map_qiskit_instr_to_pq(
+            instr_qiskit, modes, aux_modes, clbit_positions
+        )
         instructions.extend(mapped_instructions)
 
     return instructions
